@@ -15,6 +15,7 @@ Definition to_codes (s : name) : list Z := map (fun c => Z.of_N (code c)) s.
    last row: [validity flags] *)
 Definition sanitizer_case (names : list (list Z)) : list (list Z) :=
   let ns := map of_codes names in
-  map (fun a => let v := sp_name src_params ns a in
+  let m := sp_map src_params ns in      (* computed once; sp_name src_params ns a = varname m a *)
+  map (fun a => let v := varname m a in
                 if name_eqb v a then [] else to_codes v) ns
   ++ [map (fun a => if sp_valid src_params a then 1%Z else 0%Z) ns].
